@@ -20,6 +20,9 @@ def run(tier, seed):
     for vk, sk, sf, ak, oc, oak in itertools.product((0, 6), (-1, 0, 1, 2), (False, True), range(6), (False, True), range(6)):
         if thorough or (sf or sk == 2):
             cases.append(Case('qual2_v%d_s%d_%d_a%d_o%d_oa%d' % (vk, sk, sf, ak, oc, oak), 'crypto', 'zzDKG_qual_participant', [vk, sk & ((1 << 64) - 1), sf, ak, oc, oak]))
+    # unsolicited (early) complaint answers in round 1, before the share and the vector
+    for vk, sk, sf, ak, ek in itertools.product((0, 6), (-1, 0, 1, 2, 4), (False, True), (0, 1, 2), range(1, 6)):
+        cases.append(Case('early_v%d_s%d_%d_a%d_e%d' % (vk, sk, sf, ak, ek), 'crypto', 'zzDKG_qual_participant_early', [vk, sk & ((1 << 64) - 1), sf, ak, False, 0, ek]))
     for c1, c2, dup in itertools.product(range(0, 5), range(0, 5), (False, True)):
         cases.append(Case('dealer_%d_%d_%d' % (c1, c2, dup), 'crypto', 'zzDKG_qual_dealer', [c1, c2, dup]))
     return run_check('C08', cases, tier, seed, setup=dkgcommon.SETUP,
